@@ -152,11 +152,15 @@ func HarnessReflectArbitraryProto() {
 	for i := 0; i < nFields; i++ {
 		m.Field = append(m.Field, verifDrawField([]string{"first", "second_one"}[i], int32(i+1), oneofs))
 	}
-	// N refers back to M (mutual recursion) and to itself
+	// N refers back to M (mutual recursion, optionally flattened: a flatten cycle
+	// through two messages) and to itself
 	n := &descriptorpb.DescriptorProto{Name: proto.String("N"), Field: []*descriptorpb.FieldDescriptorProto{
-		{Name: proto.String("back"), Number: proto.Int32(1), Type: descriptorpb.FieldDescriptorProto_TYPE_MESSAGE.Enum(), TypeName: proto.String(".t.v1.M"), Label: descriptorpb.FieldDescriptorProto_LABEL_OPTIONAL.Enum()},
+		{Name: proto.String("back"), Number: proto.Int32(1), Type: descriptorpb.FieldDescriptorProto_TYPE_MESSAGE.Enum(), TypeName: proto.String(".t.v1.M"), Label: descriptorpb.FieldDescriptorProto_LABEL_OPTIONAL.Enum(), Options: &descriptorpb.FieldOptions{}},
 		{Name: proto.String("self"), Number: proto.Int32(2), Type: descriptorpb.FieldDescriptorProto_TYPE_MESSAGE.Enum(), TypeName: proto.String(".t.v1.N"), Label: descriptorpb.FieldDescriptorProto_LABEL_REPEATED.Enum()},
 	}}
+	if ndBool("backReferenceFlattened") {
+		proto.SetExtension(n.Field[0].Options, ext_j5pb.E_Field, verifJ5Ext(2))
+	}
 	enumv := func(name string, n int32) *descriptorpb.EnumValueDescriptorProto {
 		return &descriptorpb.EnumValueDescriptorProto{Name: proto.String(name), Number: proto.Int32(n)}
 	}
